@@ -155,6 +155,22 @@ pub fn run_c18(tier: &str) -> i32 {
             }
         }
     }
+    // two or three stored tags whose names overlap partially, and lines that contain the overlapped spelling
+    let tag_names = ["ab", "bc", "ba", "cab", "b"];
+    let tag_lines = crate::tags::lines_abm(4).into_iter().map(|l| l.replace('-', "c")).collect::<Vec<_>>();
+    for n1 in tag_names {
+        for n2 in tag_names {
+            if n1 == n2 || n1.starts_with(n2) || n2.starts_with(n1) {
+                continue;
+            }
+            for l in &tag_lines {
+                let body = format!("-TXTPP#tag {n1}\n+TXTPP#write X\n-TXTPP#tag {n2}\n+TXTPP#write {n1}\n{l}\n{n1} {n2}\n");
+                let mut t = Tree::new();
+                tfile(&mut t, "s.txt.txtpp", body);
+                jobs.push((format!("overlapping tag names {n1:?} and {n2:?}, line {l:?}"), t, Box::new(|e: &Env, m: &Mode| e.cfg(m))));
+            }
+        }
+    }
     for n in [8191usize, 8192, 8193, 65537] {
         for shape in ["text", "directive-arg", "prefix", "cr-in-the-middle"] {
             let line = match shape {
